@@ -23,6 +23,21 @@ Proof.
   exact (cvalid_pvalid mm Sg alias_objects plain_classes H_img F1 F2 N1 N2 N3 N4 T j p k n).
 Qed.
 
+Corollary mm_pvalid_structure s st j : find_struct mm s = Some st -> String.eqb s "LSPObject" = false -> cvalid mm (TRef s) j ->
+  pvalid Sg (NLmm mm) (PyCls s) j.
+Proof.
+  intros F O V. destruct (names_ok_sound mm H_names) as [N1 _].
+  apply (mm_pvalid (TRef s) j (PyCls s) 1 1 V); [reflexivity|].
+  cbn [Image.py_of]. rewrite (N1 s st F), O, F. cbn [Image.smatch]. apply String.eqb_refl.
+Qed.
+
+Corollary mm_pvalid_literal ps0 c fs j : lookup_cls Sg c = Some fs -> find_struct mm c = None ->
+  corrw_b mm Sg alias_objects (props_of_lit ps0) fs = true -> cvalid mm (TLit ps0) j -> pvalid Sg (NLmm mm) (PyCls c) j.
+Proof.
+  intros L NS CB V. destruct (names_ok_sound mm H_names) as [N1 [N2 [N3 N4]]]. destruct (fields_ok2_sound Sg H_fields) as [F1 F2].
+  exact (lit_pvalid mm Sg alias_objects plain_classes H_img F1 F2 N1 N2 N3 N4 ps0 c fs j L NS CB V).
+Qed.
+
 (* for every metamodel type T, every annotation p that is the image of T (smatch) and lies in the covered part, and EVERY closed-valid
    JSON value j of T: j parses at p into a value of type p that serialises back to j up to null-valued members *)
 Theorem mm_roundtrip T j p k n : cvalid mm T j -> wfp p = true -> smatch mm Sg alias_objects k (py_of mm n T) p = true ->
